@@ -1623,32 +1623,41 @@ class C17(UciCheck):
 
         def play(chunk):
             out = []
-            e = ucimod.Engine(binary)
+            e = None
+
+            def fresh():
+                eng = ucimod.Engine(binary)
+                eng.send("uci")
+                eng.read_until(lambda l: l == "uciok", 10)
+                return eng
+
             try:
-                e.send("uci")
-                e.read_until(lambda l: l == "uciok", 10)
+                e = fresh()
                 for r in chunk:
                     f = r.split("\t")
                     fen = f[1]
                     moves = [m.split(":")[0] for m in (f[2].split() if len(f) > 2 else [])]
                     head = "position startpos" if fen == START else f"position fen {fen}"
                     cmd = head + (" moves " + " ".join(moves) if moves else "")
-                    if not e.send(cmd):
-                        out.append(("dead", []))
-                        break
-                    e.send("d fen")
-                    got, _ = e.read_until(lambda l: l.startswith("FEN: "), 10)
-                    e.send("d perftdiv 1")
-                    tot, seen = e.read_until(lambda l: l.startswith("total:"), 10)
+                    ok = e.send(cmd)
+                    got = tot = None
+                    seen = []
+                    if ok:
+                        e.send("d fen")
+                        got, _ = e.read_until(lambda l: l.startswith("FEN: "), 10)
+                        e.send("d perftdiv 1")
+                        tot, seen = e.read_until(lambda l: l.startswith("total:"), 10)
                     if got is None or tot is None:
                         out.append(("dead" if not e.alive() else "silent", []))
-                        if not e.alive():
-                            break
+                        # only this game is blamed: continue with a fresh process
+                        e.kill()
+                        e = fresh()
                         continue
                     replies = sorted(l.split(":")[0] for l in seen if re.match(r"^[a-h][1-8][a-h][1-8][nbrq]?: \d+$", l))
                     out.append((got[5:], replies))
             finally:
-                e.kill()
+                if e:
+                    e.kill()
             while len(out) < len(chunk):
                 out.append(("dead", []))
             return out
